@@ -351,6 +351,11 @@ def r5(ctx):
 
     def cfgpid(e):
         c = compare(e)
+        if c and isinstance(c[0], ast.Name):
+            # a local assigned exactly once from cfg.pidfile (`pidname = self.cfg.pidfile; if pidname is not None`)
+            ss = [x for x in stores_to_name(f, c[0].id) if isinstance(x.ast, ast.Assign)]       # (`pidname += ".2"` never makes it None)
+            if len(ss) == 1 and isinstance(ss[0].ast.value, ast.Attribute) and ss[0].ast.value.attr == "pidfile" and tail(ss[0].ast.value.value) == "cfg":
+                c = (ss[0].ast.value, c[1], c[2])
         if c and isinstance(c[0], ast.Attribute) and c[0].attr == "pidfile" and tail(c[0].value) == "cfg" and isinstance(c[2], ast.Constant) and c[2].value is None:
             return -1 if c[1] in (ast.Is, ast.Eq) else +1       # C = 'a pid file is configured'; its false edge needs no create()
         return None
